@@ -29,6 +29,7 @@ References:
 # Imports
 from typing import Any, Union
 
+from bip_utils.addr.addr_dec_utils import AddrDecUtils
 from bip_utils.addr.addr_key_validator import AddrKeyValidator
 from bip_utils.addr.iaddr_decoder import IAddrDecoder
 from bip_utils.addr.iaddr_encoder import IAddrEncoder
@@ -71,11 +72,12 @@ class P2WPKHAddrDecoder(IAddrDecoder):
         hrp = kwargs["hrp"]
 
         try:
-            # SegwitBech32Decoder also validates the length
             wit_ver_got, addr_dec_bytes = SegwitBech32Decoder.Decode(hrp, addr)
         except Bech32ChecksumError as ex:
             raise ValueError("Invalid bech32 checksum") from ex
 
+        # Validate length (SegwitBech32Decoder also admits 32-byte programs for version 0, i.e. P2WSH)
+        AddrDecUtils.ValidateLength(addr_dec_bytes, Hash160.DigestSize())
         # Check witness version
         if wit_ver_got != P2WPKHAddrConst.WITNESS_VER:
             raise ValueError(f"Invalid witness version (expected {P2WPKHAddrConst.WITNESS_VER}, "
